@@ -465,7 +465,25 @@ where
                     }
                 }
                 Action::Retype(t) => retype(&msg, t).map(|m| (m, "re-typed message".into())),
-                Action::Corrupt(h, p) => corrupt(&msg, h, p, allow_flip).map(|m| (m, "corrupted message".into())),
+                Action::Corrupt(h, p) => {
+                    // on the wire: a frame cut short or with a trailing byte is undecodable and
+                    // must never turn into a message
+                    if let Ok(wire) = msg.get_encoded() {
+                        let bad = if h % 2 == 0 && !wire.is_empty() { wire[..wire.len() - 1 - idx16(p, wire.len().min(6))].to_vec() } else { [&wire[..], &[0x5A]].concat() };
+                        match guard(|| PingPongMessage::get_decoded(&bad)) {
+                            Ok(Err(_)) => obs.label("undecodable-frame-refused"),
+                            Ok(Ok(m)) => {
+                                obs.fail("undecodable-frame-decoded", format!("the frame {} ({} of the encoding of {:?}) decoded to {:?}", hex(&bad), if bad.len() < wire.len() { "a strict prefix" } else { "an extension" }, msg, m));
+                                return;
+                            }
+                            Err(pn) => {
+                                obs.fail(format!("frame-decode-{}", panic_sig(&pn)), format!("decoding the frame {} panicked: {pn}", hex(&bad)));
+                                return;
+                            }
+                        }
+                    }
+                    corrupt(&msg, h, p, allow_flip).map(|m| (m, "corrupted message".into()))
+                }
             };
             if let Some((fm, what)) = faulty {
                 faults += 1;
@@ -493,7 +511,14 @@ where
                 }
             }
         }
-        // correct delivery
+        // correct delivery (the message crosses the wire: encode, decode, equal)
+        match msg.get_encoded().ok().map(|w| (PingPongMessage::get_decoded(&w), w)) {
+            Some((Ok(m), _)) if m == msg => {}
+            other => {
+                obs.fail("message-wire-roundtrip", format!("message {idx} ({msg:?}) does not survive its own wire encoding: {:?}", other.map(|(r, w)| (r.map_err(|e| e.to_string()), hex(&w)))));
+                return;
+            }
+        }
         let cont = match receive(receiver, &state, &msg) {
             Ok(Ok(c)) => c,
             Ok(Err(e)) => {
